@@ -299,8 +299,8 @@ fn worker(args: &[String]) -> i32 {
         };
         debug_assert_eq!(subscriber_for(index, chunk), subscriber);
         let scen = &scens[which];
-        if prop == "C09" {
-            // (only where "append never blocks" is the property: the plan is cloned for the watchdog)
+        if prop == "C09" || prop == "C16" {
+            // (only where "append never blocks / never stalls" is the property: the plan is cloned for the watchdog)
             *WEDGE.lock().unwrap() = Some(WedgeReport { prop: prop.clone(), scenario: scen.name().to_string(), index, plan: plan.clone(), out: Some(out.clone()), replay_mode: false, base });
         }
         let rep = run_scenario(scen.as_ref(), &plan);
